@@ -39,5 +39,6 @@ func Note(s string)                {}
 func Yield(tag string)             {}
 func Quiesce()                     {}
 func Threads()                     {}
+func Hook(name string, f interface{}) {}
 func SetClock(sec, nsec, stepNs int64) {}
 func ClockYields(on bool)          {}
